@@ -140,7 +140,7 @@ static ARef m_new(MState& M, Index count, int ebytes, const std::vector<double>&
   r.id = M.next_id++; M.arr[r.id] = a;
   return r;
 }
-static void m_share(MState& M, const ARef& r) { if(r.id < 0) M.null_share = true; else M.arr[r.id].refs++; }
+static void m_share(MState& M, const ARef& r) { if(r.id < 0) M.null_share = true; else { auto it = M.arr.find(r.id); if(it != M.arr.end()) it->second.refs++; } }
 static void m_unref(MState& M, const ARef& r)
 {
   if(r.id < 0) return;
@@ -157,11 +157,13 @@ static std::vector<double> m_values(const MState& M, const ARef& r)
 {
   std::vector<double> v(r.size, 0.0);
   if(r.id < 0) return v;
-  const MArr& a = M.arr.at(r.id);
+  auto it = M.arr.find(r.id);
+  if(it == M.arr.end()) return v;   // borrowed array already released inside this operation: the history gets excluded
+  const MArr& a = it->second;
   for(Index k = 0; k < r.size; ++k) v[k] = a.v[r.off + k];
   return v;
 }
-static bool m_defined(const MState& M, const ARef& r) { return r.id < 0 ? true : M.arr.at(r.id).defined; }
+static bool m_defined(const MState& M, const ARef& r) { if(r.id < 0) return true; auto it = M.arr.find(r.id); return it == M.arr.end() ? false : it->second.defined; }
 
 static std::vector<Index> default_si(int t)
 {
@@ -361,7 +363,7 @@ static Verdict m_apply(MState& M, const Op& o, const int* ty, std::string& why)
   case O_FORMAT:
     for(const ARef& r : si.el)
     {
-      if(r.id < 0) continue;
+      if(r.id < 0 || !M.arr.count(r.id)) continue;
       MArr& a = M.arr[r.id];
       // format() of an owner covers the whole array and makes it defined; a borrower writes its window only
       for(Index k = 0; k < r.size; ++k) a.v[r.off + k] = 9.0;
@@ -579,6 +581,7 @@ struct Harness
   int ty[3];
   std::vector<Op> prefix;            // start configuration
   std::set<std::string> reported;
+  std::map<std::string, int> abort_confirmed, suspect_passed; std::set<std::string> suspect_died;
   const std::vector<Op>* cur_hist = nullptr; const Op* cur_op = nullptr;
   bool in_child = false;
 
@@ -843,7 +846,8 @@ struct Harness
           if(v == V_EXCLUDED) { c.excluded(why); continue; }
           if(v == V_EXPECT_ABORT)
           {
-            if(depth > abort_leaf_depth) { c.count("expected_abort_leaves_skipped_beyond_depth"); continue; }
+            if(depth > abort_leaf_depth || abort_confirmed[opc + why] >= 2) { c.count("expected_abort_leaves_not_repeated"); continue; }
+            abort_confirmed[opc + why]++;
             const int sig = c.run_forked([&] { Pool P; MState Mt; replay(fr.hist, P, Mt); apply_real(P, o, ty); });
             c.count("expected_abort_leaves");
             c.count("transitions");
@@ -851,7 +855,9 @@ struct Harness
             c.outcome("forbidden call aborts");
             continue;
           }
-          if(v == V_SUSPECT)
+          const std::string skey = M2.null_share ? std::string("sharing a zero-sized (null) array: ") + (o.k == O_CLONE ? "clone" : o.k == O_CONVERT ? "convert" : "layout") + " of " + t_name[ty[o.i]] : opc;
+          if(v == V_SUSPECT && suspect_died.count(skey)) { c.count("suspect_transitions_not_repeated_after_crash"); continue; }
+          if(v == V_SUSPECT && suspect_passed[skey] < 3)
           {
             // the operation shares a null pointer / reads a missing array: execute and check it in a child first
             shm()[0] = 0;
@@ -871,10 +877,11 @@ struct Harness
                 std::istringstream in{std::string(shm())}; std::string line;
                 while(std::getline(in, line)) { size_t t = line.find('\t'); if(t != std::string::npos) fail_once(line.substr(0, t), line.substr(t + 1)); }
               }
-              else fail_once(opc + ": dies on a legal history (zero-sized / missing array)", "signal/exit " + std::to_string(sig));
+              else { fail_once(skey + ": dies on a legal history", "operation " + opc + " signal/exit " + std::to_string(sig)); suspect_died.insert(skey); }
               c.outcome("op crashes");
               continue;
             }
+            suspect_passed[skey]++;
           }
           Pool P; MState Mr;
           replay(fr.hist, P, Mr);
